@@ -6,6 +6,18 @@ CHECKS = {
  "C01": ("exploration", "bounded-exhaustive enumeration of constraint-system call sequences (program space) on the real prover/verifier",
          "Every call sequence up to the depth bound, every size-family member with each capacity pair and every value template x VAL^k is proved and verified on the real code; a satisfied system must yield Ok/Ok.",
          "values limited to the VAL alphabet; depth bounded; arkworks and Merlin trusted", "4 C01"),
+ "C02": ("exploration", "bounded-exhaustive enumeration of violation sites (witness input, constraint constant, gate wire via hook H1) over the program space, reference-model oracle",
+         "For every program of the bounded space and every violation site x delta the real prover is run on the bad assignment and the real verifier must reject whenever the reference constraint system reports a violated constraint or gate.",
+         "decides proofs emitted by the real proving code for bad assignments (not arbitrary adversaries); coincidental cancellation with probability ~1/|F| treated as impossible", "4 C02"),
+ "C13": ("exploration", "complete grid enumeration over the value alphabet against a harness-side double-and-add reference",
+         "Full (v,r) grid x 3 base pairs x 3 curves; all pairs of pairs for additivity; scalings; Prover::commit on every pair.",
+         "group addition/doubling of arkworks trusted; values outside VAL not covered", "4 C13"),
+ "C16": ("model_checking", "explicit-state model checking (stateright BFS) of the abstract allocator, with every model state replayed call-by-call on the real Prover and Verifier",
+         "stateright enumerates every call history up to the depth bounds (unmerged tree, and a merged run keyed by the abstract allocator state); each state is re-executed on a real Prover and Verifier (closures inside a real prove/verify) and every returned handle and gate count is compared between the roles and with the abstract allocator; closing probes decide right=out=0 for a gate left open at a phase end.",
+         "the abstract allocator is the specification; stateright BFS/visited set trusted", "4 C16"),
+ "C17": ("exploration", "complete configuration-grid enumeration (gates1 x gates2 x prover capacity x verifier capacity) on the real prove/verify/batch_verify",
+         "Every grid point is executed; the insufficient-generators error must appear exactly below the padded threshold, nothing may panic, proof bytes and verdict must not depend on surplus capacity.",
+         "grid bounds as stated in the evidence", "4 C17"),
 }
 NOT_APPLICABLE = {}
 def main():
